@@ -20,7 +20,7 @@ PROPERTY = "C11"
 MANIFEST_INFO = {
     "engine": "B",
     "design_ref": "DESIGN.md section 5, C11",
-    "technique": "exhaustive enumeration of decorator trees (CopyStreamResult, StreamTagger x3 parameterisations (add only, add+discard, discard only), TimestampingStreamResult, StreamToQueue drained into its child, StreamFailFast, recording sinks; depth <= 3, fan-out <= 2/3) x all event sequences up to a length bound (tags as set / frozenset / None / empty, timestamp present or absent, positional or keyword ids), each executed on fresh real objects; expected sink logs are the composition of pure per-decorator transforms along each path; argument and alias snapshots",
+    "technique": "exhaustive enumeration of decorator trees (CopyStreamResult, StreamTagger x4 parameterisations (add only, add+discard, discard only, overlapping add/discard), TimestampingStreamResult, StreamToQueue drained into its child, StreamFailFast, recording sinks; depth <= 3, fan-out <= 2/3) x all event sequences up to a length bound (tags as set / frozenset / None / empty, timestamp present or absent, positional or keyword ids), each executed on fresh real objects; expected sink logs are the composition of pure per-decorator transforms along each path; argument and alias snapshots",
     "level_text": "Every spine tree of decorator depth <= 2 with every leaf-sibling placement (about 2000 trees) and every depth-3 spine (quick: siblings only at the root; thorough: everywhere, plus fan-out 3) is built afresh and fed startTestRun, every sequence of <= 2 (quick) / 3 (thorough) events from a 16-event alphabet (incl. an empty-string route code, a supplied timestamp in the future, a failing status carrying an attachment), also with the run ended and the same tree started again in between; sinks that return None or a truthy value; taggers configured with sets or one-shot iterators, stopTestRun. Each sink must have received exactly the sent events transformed by the decorators on its own path (tags added/discarded, missing timestamp filled with a tz-aware UTC 'now' inside the call bracket, route code prefixed) and nothing else; the fail-fast callback count must equal the number of fail/uxsuccess events reaching it; the caller's argument objects must be unchanged after every call; no tag set held by one sink may change after it was delivered (aliasing with a sibling or the caller).",
     "level_note": "Only test_id/test_status are passed positionally (as every caller in testtools does); StreamToQueue is drained by the harness after every call, forwarding start/stop/status to its child.",
 }
@@ -60,7 +60,9 @@ class ChattySink(Sink):
 
 
 # ---- tree specs: ("sink",) ("ff",) ("copy", [kids]) ("tag", variant, [kids]) ("ts", kid) ("q", code, kid)
-TAG_VARIANTS = {"a": (("x",), ()), "b": (("y",), ("t",)), "c": ((), ("t",)), "d": (("y",), ("t",))}
+TAG_VARIANTS = {"a": (("x",), ()), "b": (("y",), ("t",)), "c": ((), ("t",)), "d": (("y",), ("t",)),
+                # add and discard overlap: the documented order is add first, discard last
+                "e": (("y", "u"), ("u", "t"))}
 # variant "d" hands add/discard to the tagger as one-shot iterators ("an iterable of tags")
 
 
@@ -309,6 +311,7 @@ def wrap_options(child, siblings):
         out.append(("tag", "c", kids))
         if len(kids) == 1:
             out.append(("tag", "d", kids))
+            out.append(("tag", "e", kids))
     out.append(("ts", child))
     out.append(("q", "0", child))
     return out
@@ -328,6 +331,11 @@ def trees(tier):
                 if tier == "quick" and _has_siblings(t2):
                     continue
                 out.extend(wrap_options(t2, 1))
+    # several StreamToQueue objects with different routing codes in one tree (siblings and nested)
+    out.append(("copy", [("q", "0", ("sink",)), ("q", "1", ("sink",))]))
+    out.append(("copy", [("q", "1", ("tag", "a", [("sink",)])), ("ts", ("q", "0", ("sink",)))]))
+    out.append(("q", "0", ("q", "1", ("sink",))))
+    out.append(("copy", [("q", "0", ("q", "1", ("sink",))), ("q", "1", ("q", "0", ("sink",)))]))
     # dedupe
     seen, uniq = set(), []
     for t in out:
